@@ -29,6 +29,8 @@ CHECKS = {
             'histories longer than the bound; Fortran file-name re-use is not explored; worker reset is cross-checked against fresh interpreters on every run', MC, 'DESIGN.md 3 C13'),
     'C14': ('model_checking', 'seeds {flat, depth-1, depth-2, shared operators with per-node overrides, YAML-derived} x every sequence of <=1 (thorough 2) legitimate mutators x every sequence of <=2 (3 on a sub-alphabet) of the 14 listed read-only / copy-making operations; after every operation the canonical dump of the template (equations, declared values, per-node variations, edges, edge map, object sharing, state bookkeeping) must be unchanged, at the end the vector field must equal that of a pristine twin and repeated run(in_place=False) must return identical frames',
             'an operation that raises is not counted as a violation unless it changed the template; five seeds', MC, 'DESIGN.md 3 C14'),
+    'C15': ('exploration', '(a) C01-style models written by an own YAML emitter and loaded with from_yaml, (b) python classes -> to_yaml -> from_yaml with per-node overrides, shared operators, edge templates with attributes and hierarchy - both compared per frontend variable with the reference semantics at a base point plus single deviations; (c) every equation edit kind over identifier sets that contain one another with each identifier at every position against token-level editing, and base: chains of length 1-3',
+            'models with <=2 nodes (3 for shared-operator overrides); prepend edits are not enumerated', EXPL, 'DESIGN.md 3 C15'),
     'C16': ('exploration', 'PopulationTemplate(n) x Connectivity circuits with n in 1..3 (4), one or two populations, every weight matrix over a 3-value alphabet for <=2x2 and all matrices with <=3 non-zeros otherwise (non-square, signed, sparse), scalar weights, heterogeneous per-unit parameters and initial states, algebraic and dynamic coupling edges, delays with and without spread: vector field at probe points and euler trajectories (one column per unit, in unit order) vs the unit-by-unit reference expansion and, for plain weights, vs the explicit circuit built with add_edges_from_matrix',
             'input defaults are 0 in the models (an all-zero matrix row is ambiguous between the two readings the property gives otherwise, see DESIGN.md 8); n <= 4', EXPL, 'DESIGN.md 3 C16'),
     'C17': ('exploration', '2 circuits x parameter maps {node parameter, several nodes per key, several variables per key, edge attribute, node+edge, initial value+parameter} x grids {equal-length 2 and 3, permuted} x inputs {none, shared array} x vectorize x solver: for every row of the parameter table returned by grid_search the block of result columns labelled with that row key must equal a separate run of a fresh template updated with those values',
